@@ -4,8 +4,8 @@ import os
 import sys
 import time
 
-from verif import (VERIF, REPO, Scratch, build_harness, coq_build, coq_property, coqchk, hygiene,
-                   known_findings, log, ocaml_build, run_driver, run_harness)
+from verif import (VERIF, REPO, Scratch, build_harness, coq_build, coq_property, coqchk, hygiene, instrument,
+                   known_findings, log, ocaml_build, run_driver, run_harness, syncops_drift)
 
 STD_AXIOMS = {
     "ClassicalDedekindReals.sig_forall_dec": "standard library real-number axiom",
@@ -119,11 +119,17 @@ def run_check(spec, tier, seed, only_stage=None):
             if only_stage and stage["name"] != only_stage:
                 continue
             sname = stage["name"]
-            pre = stage.get("prebuild")
             extra_overlay = None
-            if pre:
+            if stage.get("instrument"):
                 try:
-                    extra_overlay = pre(scratch)
+                    extra_overlay, listing = instrument(scratch)
+                    diffs, _cur = syncops_drift(listing, stage.get("drift", []))
+                    for key, exp, cur in diffs[:5]:
+                        violations.append({"key": "corr_ops_" + key.split("::")[-1], "concrete": False,
+                                           "what": "the synchronisation operations of %s changed: modelled %r, now %r; the theorems are about a program the code no longer is"
+                                                   % (key, exp, cur),
+                                           "unchecked": "corr_ops_" + key.split("::")[-1]})
+                    stats[sname + ".syncop_functions_compared"] = len(stage.get("drift", []))
                 except Exception as ex:  # instrumentation failed on the current sources
                     violations.append({"key": "corr_instrument_" + sname, "concrete": False,
                                        "what": "instrumentation of the current sources failed: %s" % ex,
